@@ -97,37 +97,6 @@ def mkinfo(info):
     return np.eye(*info) if len(info) == 2 and info[0] == info[1] else np.ones(info)
 
 
-class _DebugLogging:
-    """The library's loggers switched to DEBUG with a handler attached (an application debugging its SLAM pipeline) for the duration of a construction."""
-
-    def __enter__(self):
-        import logging
-
-        self.lg = logging.getLogger("graphslam")
-        self.h = logging.NullHandler()
-        self.h.setLevel(logging.DEBUG)
-        self.old = self.lg.level
-        self.lg.addHandler(self.h)
-        self.lg.setLevel(logging.DEBUG)
-        self.kids = []
-        for name, obj in list(logging.root.manager.loggerDict.items()):
-            if name.startswith("graphslam.") and isinstance(obj, logging.Logger):
-                self.kids.append((obj, obj.level, obj.propagate))
-                obj.setLevel(logging.DEBUG)
-                obj.propagate = False
-                obj.addHandler(self.h)
-        return self
-
-    def __exit__(self, *a):
-        self.lg.setLevel(self.old)
-        self.lg.removeHandler(self.h)
-        for obj, lvl, prop in self.kids:
-            obj.setLevel(lvl)
-            obj.propagate = prop
-            obj.removeHandler(self.h)
-        return False
-
-
 class _Plain:
     def __enter__(self):
         return self
@@ -284,7 +253,7 @@ def run_case(ctx, i, rng):
     case = {"configuration": {"edge": kind, "endpoints": list(ep), "estimate": est, "offset": off, "info": list(info), "ids_present": present}, "variant": variant}
     raised = None
     try:
-        with (_DebugLogging() if debug_logging else _Plain()):
+        with (M.DebugLogging() if debug_logging else _Plain()):
             g = M.Graph([e], listed)
     except Exception as ex:
         raised = type(ex).__name__
